@@ -4,3 +4,6 @@ open O2P.Diagram
 #print axioms runs_wellformed
 #print axioms accepts_iff
 #print axioms parse_ok_tail
+#print axioms isoB_sound
+#print axioms isoB_complete
+#print axioms accepts_iff_iso
